@@ -8,6 +8,19 @@
 namespace BitSerializer::Detail
 {
 	/// <summary>
+	/// Limits the number of items which can be preallocated according to the size declared in the archive.
+	/// The declared size is a part of input data (binary formats can declare billions of items in a few bytes),
+	/// the rest of items will be added one by one when they are really present.
+	/// </summary>
+	template<typename TItem>
+	constexpr size_t LimitPreallocatedSize(size_t estimatedSize) noexcept
+	{
+		constexpr size_t maxPreallocatedBytes = 1024 * 1024;
+		constexpr size_t maxItems = maxPreallocatedBytes / sizeof(TItem) < 16 ? 16 : maxPreallocatedBytes / sizeof(TItem);
+		return estimatedSize < maxItems ? estimatedSize : maxItems;
+	}
+
+	/// <summary>
 	/// Generic function for serialization containers.
 	/// </summary>
 	template<typename TArchive, typename TContainer>
@@ -18,7 +31,7 @@ namespace BitSerializer::Detail
 			// Resize container when is known approximate size
 			if (const auto estimatedSize = arrayScope.GetEstimatedSize(); estimatedSize != 0)
 			{
-				cont.resize(estimatedSize);
+				cont.resize(LimitPreallocatedSize<typename TContainer::value_type>(estimatedSize));
 			}
 
 			// Load existing items
